@@ -234,23 +234,9 @@ def _success_successors(fn, call):
 
 def stored_size(ck, P, cfg):
     R = "COUP/free-what-was-allocated"
-    for mod in ("deflate", "inflate"):
-        fn = P.fn(Z + mod + "::end")
-        if not ck.anchor("fn %s::end" % mod, fn):
-            continue
-        ck.use_fn(fn)
-        de = fn.live_calls(r"Allocator::deallocate$")
-        if not ck.anchor("deallocate in %s::end" % mod, len(de) == 1):
-            continue
-        a = fn.call_args(de[0])
-        ok = mir.mentions_field(a[1], "allocation_start") and mir.mentions_field(a[2], "total_allocation_size")
-        ck.decide(ok, R, "%s::end@%s" % (mod, cfg), "deallocate(state.allocation_start, state.total_allocation_size)",
-                  "%s::end frees (%s, %s): not the stored allocation pointer and size" % (mod, mir.fmt(a[1], fn)[:60], mir.fmt(a[2], fn)[:60]), where(fn, de[0].line))
-        # state pointer cleared before/after freeing
-        wr = [1 for bi, fp, root, rv, s in fn.field_writes() if fp[-1:] == ("state",)]
-        rp = fn.live_calls(r"core::mem::replace$")
-        ck.decide(bool(wr) or any(mir.field_path(fn.call_args(c)[0])[1][-1:] == ("state",) for c in rp), R, "%s::end:null-state@%s" % (mod, cfg), "stream.state cleared",
-                  "%s::end does not clear stream.state: a second End would free again" % mod, where(fn))
+    # the fields that record the allocation are found by what init stores in them (the pointer returned by the allocator,
+    # the size that was requested) - not by their names, so renaming or regrouping them does not matter
+    roles = {}
     for path in (Z + "deflate::init", Z + "inflate::init", Z + "inflate::infback::back_init"):
         fn = P.fn(path)
         if not ck.anchor("fn " + path, fn):
@@ -260,17 +246,41 @@ def stored_size(ck, P, cfg):
         if not ck.anchor("allocation in " + path, len(ac) == 1):
             continue
         req = fn.call_args(ac[0])[1]
-        stored = None
-        for bi, fp, root, rv, s in fn.field_writes():
-            if fp[-1:] == ("total_allocation_size",):
-                stored = rv
-        for bi, si, lhs, rv, s in fn.assignments():
-            if rv["k"] == "agg" and rv.get("adt", "").endswith("State"):
+        size_fields, stored = set(), None
+        cand = []
+        for bi, fp, root, rv, s_ in fn.field_writes():
+            cand.append((fp[-1], rv))
+        for bi, si, lhs, rv, s_ in fn.assignments():
+            if rv["k"] == "agg" and rv.get("agg") == "adt":
                 e = fn.rvalue_expr(rv)
-                stored = dict(e[3]).get("total_allocation_size", stored)
-        ok = stored is not None and coup_strip(stored) == coup_strip(req)
-        ck.decide(ok, R, path.replace(Z, "") + ":size@" + cfg, "stored size == requested size (%s)" % mir.fmt(req, fn)[:40],
-                  "%s requests %s bytes but records %s as the allocation size: the free will pass a wrong size" % (path, mir.fmt(req, fn)[:50], mir.fmt(stored, fn)[:50] if stored else None), where(fn))
+                for fname, val in e[3]:
+                    cand.append((fname, val))
+        for fname, val in cand:
+            if coup_strip(val) == coup_strip(req):
+                size_fields.add(fname)
+                stored = val
+        mod = "deflate" if "deflate" in path else "inflate"
+        roles.setdefault(mod, set()).update(size_fields)
+        ck.decide(bool(size_fields), R, path.replace(Z, "") + ":size@" + cfg, "a state field records the requested size (%s) in %s" % (mir.fmt(req, fn)[:40], sorted(size_fields)),
+                  "%s requests %s bytes but no state field records that size: the free will pass a wrong size" % (path, mir.fmt(req, fn)[:50]), where(fn))
+    for mod in ("deflate", "inflate"):
+        fn = P.fn(Z + mod + "::end")
+        if not ck.anchor("fn %s::end" % mod, fn):
+            continue
+        ck.use_fn(fn)
+        de = fn.live_calls(r"Allocator::deallocate$")
+        if not ck.anchor("deallocate in %s::end" % mod, len(de) == 1):
+            continue
+        a = fn.call_args(de[0])
+        sizes = roles.get(mod, set()) or {"total_allocation_size"}
+        ok = any(mir.mentions_field(a[2], f) for f in sizes) and any(x[0] == "f" for x in mir.walk(a[1]))
+        ck.decide(ok, R, "%s::end@%s" % (mod, cfg), "deallocate(stored pointer, stored size %s)" % sorted(sizes),
+                  "%s::end frees (%s, %s): not the allocation pointer and size that init recorded (%s)" % (mod, mir.fmt(a[1], fn)[:60], mir.fmt(a[2], fn)[:60], sorted(sizes)), where(fn, de[0].line))
+        # state pointer cleared before/after freeing
+        wr = [1 for bi, fp, root, rv, s in fn.field_writes() if fp[-1:] == ("state",)]
+        rp = fn.live_calls(r"core::mem::replace$")
+        ck.decide(bool(wr) or any(mir.field_path(fn.call_args(c)[0])[1][-1:] == ("state",) for c in rp), R, "%s::end:null-state@%s" % (mod, cfg), "stream.state cleared",
+                  "%s::end does not clear stream.state: a second End would free again" % mod, where(fn))
     fb = P.fn(SYS + "gz::free_buffers")
     if fb is not None:
         ck.use_fn(fb)
